@@ -5,6 +5,8 @@ type nat =
 | O
 | S of nat
 
+val option_map : ('a1 -> 'a2) -> 'a1 option -> 'a2 option
+
 val fst : ('a1 * 'a2) -> 'a1
 
 val snd : ('a1 * 'a2) -> 'a2
@@ -49,6 +51,8 @@ module Little :
  end
 
 val add : nat -> nat -> nat
+
+val mul : nat -> nat -> nat
 
 val sub : nat -> nat -> nat
 
@@ -129,6 +133,10 @@ module Coq_Pos :
   val to_nat : positive -> nat
 
   val of_succ_nat : nat -> positive
+
+  val of_uint_acc : uint -> positive -> positive
+
+  val of_uint : uint -> n
 
   val to_little_uint : positive -> uint
 
@@ -226,6 +234,10 @@ module Z :
 
   val of_N : n -> z
 
+  val of_uint : uint -> z
+
+  val of_int : signed_int -> z
+
   val to_int : z -> signed_int
  end
 
@@ -265,16 +277,24 @@ type 'a outcome =
 
 val py_pos : nat -> z -> nat option
 
+val uint_of_char : char -> uint option -> uint option
+
 module NilEmpty :
  sig
   val string_of_uint : uint -> char list
+
+  val uint_of_string : char list -> uint option
  end
 
 module NilZero :
  sig
   val string_of_uint : uint -> char list
 
+  val uint_of_string : char list -> uint option
+
   val string_of_int : signed_int -> char list
+
+  val int_of_string : char list -> signed_int option
  end
 
 val type_order : (char list * z) list
@@ -767,3 +787,39 @@ val conv_count : nat -> symbol -> nat * char list
 val conv_broken : unit -> symbol -> unit * char list
 
 val conv_empty : unit -> symbol -> unit * char list
+
+val unhex_digit : char -> nat option
+
+val ocons :
+  char -> (char list * char list) option -> (char list * char list) option
+
+val read_body : char -> char list -> (char list * char list) option
+
+val read_str : char list -> (char list * char list) option
+
+val read_item : char list -> (char list option * char list) option
+
+val read_items :
+  nat -> char list -> (char list option list * char list) option
+
+val read_names : char list -> (char list option list * char list) option
+
+val tpl_split :
+  char list -> char list -> char list option -> char list list * char list
+  list
+
+val segments : bool -> char list list
+
+type ctuple = { t_endogenous : char list option list;
+                t_exogenous : char list option list;
+                t_parameters : char list option list;
+                t_errors : char list option list; t_lags : z; t_leads : 
+                z; t_block : char list }
+
+val is_intc : char -> bool
+
+val read_int : char list -> (z * char list) option
+
+val read_with : char list list -> char list -> ctuple option
+
+val exec_M : char list -> ctuple option
